@@ -255,6 +255,7 @@ func (c C20) Run(t *tape.Tape, opt core.RunOpt) (res core.Result) {
 		}
 		for i := 0; i < ntasks; i++ {
 			var ops []c20Op
+			taskVars := map[string]interface{}{}
 			for j := 0; j < 1+t.Draw(maxOps); j++ {
 				d := t.Draw(7)
 				if shared {
@@ -277,7 +278,13 @@ func (c C20) Run(t *tape.Tape, opt core.RunOpt) (res core.Result) {
 				}
 				switch d {
 				case 0, 1:
-					ops = append(ops, c20Op{Kind: "sub", Sid: newSub(topic()).ID})
+					sb := newSub(topic())
+					if t.Bool(1, 4) {
+						// the selection takes an input-object argument from a variable;
+						// the task passes its own variables map and keeps using it
+						sb.Near, sb.NearVars = true, taskVars
+					}
+					ops = append(ops, c20Op{Kind: "sub", Sid: sb.ID})
 				case 2, 3:
 					ops = append(ops, c20Op{Kind: "pub", Topic: topic(), N: nextEv})
 					nextEv++
